@@ -70,7 +70,7 @@ func c12qualified(p *AllProject, r *rbT, file string, src []byte, line, col int,
 		verifViolation("", "an identifier position after _G. is not accepted as a query")
 		return
 	}
-	vs1, vs2, vs3, vs4 := vs, vs, vs, vs
+	vs1, vs2, vs3, vs4 := vpCopyVS(vs), vpCopyVS(vs), vpCopyVS(vs), vpCopyVS(vs)
 	def := p.FindVarDefineInfo(file, &vs1)
 	refs := p.FindReferences(file, &vs2, common.CRSReference)
 	high := p.FindReferences(file, &vs3, common.CRSHighlight)
@@ -133,6 +133,10 @@ var c12mTemplates = []string{
 	/* 2 */ "local t = { \x01 = { \x03 = { k = 1 } }, \x02 = { \x03 = { k = 2 } } }\nq = t.\x01.\x03.k\nr = t.\x02.\x03.k\n",
 	/* 3 */ "local t = {}\nt.\x01 = 1\nt.\x02 = 2\nq = t.\x01 + t.\x02\n",
 	/* 4 */ "local t = { \x01 = 1 }\nlocal u = { \x02 = 2 }\nq = t.\x01 + u.\x02\n",
+	// constructor keys as query positions (marked by 0x0b), the inner table opened on the line of its parent
+	// key and continued on later lines further to the left
+	/* 5 */ "local t = { \x0b\x01 = {\n    \x0b\x02 = 1,\n}, z = 2 }\nq = t.\x01.\x02\n",
+	/* 6 */ "g = { \x0b\x01 = {\n  \x0b\x02 = 1, \x0by = 2,\n},\n  \x0bz = 3 }\nq = g.\x01.\x02 + g.z + g.\x01.y\n",
 }
 
 func VerifRun_C12c() {
@@ -140,6 +144,19 @@ func VerifRun_C12c() {
 	t := c12mTemplates[ti]
 	if verifParam("LAYOUTS") > 1 && verifConcretize(verifRange("layout", 0, 1)) == 1 {
 		t = vpOneLine(t)
+	}
+	// strip the query-position markers (0x0b) and remember where they were
+	marked := map[int]bool{}
+	{
+		var clean []byte
+		for i := 0; i < len(t); i++ {
+			if t[i] == 0x0b {
+				marked[len(clean)] = true
+				continue
+			}
+			clean = append(clean, t[i])
+		}
+		t = string(clean)
 	}
 	src := []byte(t)
 	var names [10]byte
@@ -156,12 +173,13 @@ func VerifRun_C12c() {
 	if ti == 0 || ti == 2 {
 		verifAssume(names[1] != names[2]) // a constructor with a duplicate key has no single declaration of that key
 	}
+
 	file := "/w/a.lua"
 	p, _ := vpProject([]string{file}, [][]byte{src})
 	line, col := 1, 0
 	for i := 0; i < len(src); i++ {
 		// a member key: one letter directly after a dot
-		if i >= 1 && t[i-1] == '.' {
+		if (i >= 1 && t[i-1] == '.') || marked[i] {
 			for end := 0; end <= 1; end++ {
 				c12member(p, file, src, line, col+end, string(src[i:i+1]))
 			}
@@ -199,7 +217,7 @@ func c12member(p *AllProject, file string, src []byte, line, col int, name strin
 		verifViolation("", "a member key position is not accepted as a query")
 		return
 	}
-	vs1, vs2, vs3, vs4 := vs, vs, vs, vs
+	vs1, vs2, vs3, vs4 := vpCopyVS(vs), vpCopyVS(vs), vpCopyVS(vs), vpCopyVS(vs)
 	def := p.FindVarDefineInfo(file, &vs1)
 	refs := p.FindReferences(file, &vs2, common.CRSReference)
 	high := p.FindReferences(file, &vs3, common.CRSHighlight)
@@ -324,7 +342,7 @@ func c12xfile(p *AllProject, files []string, srcs [][]byte, fi, line, col, start
 		verifViolation("", "a member name position is not accepted as a query")
 		return
 	}
-	vs1, vs2, vs3 := vs, vs, vs
+	vs1, vs2, vs3 := vpCopyVS(vs), vpCopyVS(vs), vpCopyVS(vs)
 	def := p.FindVarDefineInfo(files[fi], &vs1)
 	refs := p.FindReferences(files[fi], &vs2, common.CRSReference)
 	high := p.FindReferences(files[fi], &vs3, common.CRSHighlight)
@@ -381,4 +399,23 @@ func c12xfile(p *AllProject, files []string, srcs [][]byte, fi, line, col, start
 	if !same {
 		verifViolation("", "document highlight of a cross-file member differs from its references in the same file")
 	}
+}
+
+func itoa(n int) string {
+	if n == 0 {
+		return "0"
+	}
+	s := ""
+	neg := n < 0
+	if neg {
+		n = -n
+	}
+	for n > 0 {
+		s = string([]byte{byte('0' + n%10)}) + s
+		n /= 10
+	}
+	if neg {
+		s = "-" + s
+	}
+	return s
 }
